@@ -61,7 +61,7 @@ func verifGenList(rng *rand.Rand, maxN int, f func() string) string {
 	return "[" + strings.Join(items, ",") + "]"
 }
 
-var verifIPNets = []string{"127.0.0.1/32", "::1/128", "10.0.0.0/8", "192.168.1.7", "fe80::/10", "0.0.0.0/0", "::/0", "172.16.5.0/24", "2001:db8::1", "::ffff:10.1.2.3", "1.2.3.4/31", "255.255.255.255"}
+var verifIPNets = []string{"127.0.0.1/32", "::1/128", "10.0.0.0/8", "192.168.1.7", "fe80::/10", "0.0.0.0/0", "::/0", "172.16.5.0/24", "2001:db8::1", "::ffff:10.1.2.3", "1.2.3.4/31", "255.255.255.255", "::ffff:10.0.0.0/104", "::ffff:192.168.0.0/112", "::ffff:1.2.3.4/128"}
 
 var verifCreds = []string{"", "any", "admin", "user1", "p4ss!$()*+.;<=>[]^_-{}@#&", "sha256:j1tsRqDEw9xvq/D7/9tMx6Jh/jMhk3UfjwIB2f1zgMo=", "sha256:e3b0c44298fc1c149afbf4c8996fb92427ae41e4649b934ca495991b7852b855",
 	"argon2:$argon2id$v=19$m=4096,t=3,p=1$MTIzNDU2Nzg$Ux/LWeTgJQPyfMMJo1myR64+o8rALHoPmlE1i/TR+58"}
